@@ -108,6 +108,18 @@ Theorem C07_tmp_cleaned : forall fails g files,
 Proof. exact group_run_cleaned. Qed.
 Print Assumptions C07_tmp_cleaned.
 
+(* If the temp dir cannot be created (TMPDIR unusable), `group --transform` is rejected ("Invalid transform") and
+   the only calls of the whole run are the failed create_dir_all itself, the probe of the program, and the -o file
+   created up front: no copy, no pipe, no other location is tried, no file is processed. *)
+Theorem C07_tmp_dir_failure_aborts : forall fails g toks files,
+  g_transform g = Some toks -> fails SMkTmp = true ->
+  (exists e, snd (build_transform fails toks (g_in_place g) (g_no_copy g)) = Err e) /\
+  (forall c, In (Call c) (group_run fails g files) ->
+     c = CMkdirAll PTmpDir \/ (g_output g = true /\ c = CCreate POutFile)) /\
+  (forall args sin, In (Spawn args sin) (group_run fails g files) -> args = [] /\ sin = StdinNull).
+Proof. exact tmp_dir_failure_aborts. Qed.
+Print Assumptions C07_tmp_dir_failure_aborts.
+
 (* Per file: whatever step fails, every temp file fclones itself created for the file (copy of the
    input, named pipe) has been removed again by the Drops of Input / Output when Transform::run's
    Execution is dropped — the temp dir does not grow with the number of files. *)
@@ -156,3 +168,9 @@ Example C07_cleaned_inhabited :
   In (Call (CMkdirAll PTmpDir)) (group_run no_fail (mkG (Some [TLit; TIn]) false false true true) [mkFE false no_fail]) /\
   In (Call (CRemoveDirAll PTmpDir)) (group_run no_fail (mkG (Some [TLit; TIn]) false false true true) [mkFE false no_fail]).
 Proof. eapply group_run_creates_tmp; vm_compute; reflexivity. Qed.
+
+(* the temp-dir failure is reachable with an otherwise valid configuration *)
+Example C07_tmp_dir_failure_inhabited :
+  group_run (fail_at (Some SMkTmp)) (mkG (Some [TLit; TIn; TOut]) false false true true) [mkFE false no_fail] =
+  [Call (CCreate POutFile); Spawn [] StdinNull; Call (CMkdirAll PTmpDir)].
+Proof. vm_compute. reflexivity. Qed.
